@@ -82,4 +82,20 @@ theorem mulArr_extent (a b : Extent) (h : intersect a b = true) :
   simp only [Extent.mk.injEq]
   omega
 
+/-- the two slices of `self.data[self_slice] * other.data[other_slice]` are non-empty, inside their arrays and of equal shape -/
+theorem slices_wellformed (a b : Extent) (ha : a.rmin ≤ a.rmax ∧ a.cmin ≤ a.cmax) (hb : b.rmin ≤ b.rmax ∧ b.cmin ≤ b.cmax)
+    (h : intersect a b = true) :
+    (0 ≤ (intersectionSlices a b).1.1.1 ∧ (intersectionSlices a b).1.1.1 < (intersectionSlices a b).1.1.2 ∧
+      (intersectionSlices a b).1.1.2 ≤ a.nrow) ∧
+    (0 ≤ (intersectionSlices a b).1.2.1 ∧ (intersectionSlices a b).1.2.1 < (intersectionSlices a b).1.2.2 ∧
+      (intersectionSlices a b).1.2.2 ≤ a.ncol) ∧
+    (0 ≤ (intersectionSlices a b).2.1.1 ∧ (intersectionSlices a b).2.1.1 < (intersectionSlices a b).2.1.2 ∧
+      (intersectionSlices a b).2.1.2 ≤ b.nrow) ∧
+    (0 ≤ (intersectionSlices a b).2.2.1 ∧ (intersectionSlices a b).2.2.1 < (intersectionSlices a b).2.2.2 ∧
+      (intersectionSlices a b).2.2.2 ≤ b.ncol) ∧
+    (intersectionSlices a b).1.1.2 - (intersectionSlices a b).1.1.1 = (intersectionSlices a b).2.1.2 - (intersectionSlices a b).2.1.1 ∧
+    (intersectionSlices a b).1.2.2 - (intersectionSlices a b).1.2.1 = (intersectionSlices a b).2.2.2 - (intersectionSlices a b).2.2.1 := by
+  rw [intersect_iff'] at h
+  rw [intersectionSlices_eq]; simp only [Extent.nrow, Extent.ncol]; omega
+
 end Lentil
